@@ -177,7 +177,11 @@ static void doFork(Ctx *cx, int pid, const Step &st)
 {
 	int cpid = cx->nextPid++;
 	cx->log(pid, "F" + std::to_string(st.a) + ":" + std::to_string(cpid));
-	cx->forked.push_back(fork(runScript(cx, cpid, &cx->cs->subs.at(st.a))));
+	// the slot is reserved first: the child runs nested inside fork() and may fork itself
+	size_t slot = cx->forked.size();
+	cx->forked.emplace_back();
+	auto h = fork(runScript(cx, cpid, &cx->cs->subs.at(st.a)));
+	cx->forked[slot] = h;
 }
 
 static SimProcess runScript(Ctx *cx, int pid, const Script *script)
